@@ -93,8 +93,18 @@ def loops(fn):
             for i, s in enumerate(fn.blocks[x].get("succ") or ()):
                 if s is not None and s not in natural and s != bid:
                     exits.append((x, i, s))
+        # the loop's entry: where control (re-)enters the condition.  For `while (a && b)` the condition spans
+        # several blocks and the one carrying the loop terminator (`head`) is the last of them.
+        members = natural | {bid}
+        preds = {}
+        for x, i, s2 in edges(fn):
+            preds.setdefault(s2, set()).add(x)
+        ent = [x for x in members if any(p not in members for p in preds.get(x, ()))]
+        entry = ent[0] if len(ent) == 1 else bid
+        if t["kind"] == "do":
+            entry = body_entry if body_entry in members else entry
         out.append({"head": bid, "kind": t["kind"], "body": natural, "exit_edges": exits, "after": after,
-                    "loc": t.get("loc", "")})
+                    "loc": t.get("loc", ""), "entry": entry})
     return out
 
 
